@@ -575,6 +575,45 @@ func spliceSites(repo string) ([]Site, []string, error) {
 	return sites, uniq, nil
 }
 
+// taskConsts lists the string constants declared inside the functions of
+// shovel/task.go that mention shovel.task_updates (the cursor statements):
+// constant text, parameters only.
+func taskConsts(repo string) ([]string, error) {
+	f, err := parse(repo, "shovel/task.go")
+	if err != nil {
+		return nil, err
+	}
+	var out []string
+	for _, d := range f.f.Decls {
+		fd, ok := d.(*ast.FuncDecl)
+		if !ok || fd.Body == nil {
+			continue
+		}
+		ast.Inspect(fd.Body, func(n ast.Node) bool {
+			gd, ok := n.(*ast.GenDecl)
+			if !ok || gd.Tok != token.CONST {
+				return true
+			}
+			for _, sp := range gd.Specs {
+				vs := sp.(*ast.ValueSpec)
+				for _, v := range vs.Values {
+					if bl, ok := v.(*ast.BasicLit); ok && bl.Kind == token.STRING {
+						if t, err := strconv.Unquote(bl.Value); err == nil && strings.Contains(t, "shovel.task_updates") {
+							out = append(out, strings.TrimSpace(strings.TrimSuffix(squash(t), ";")))
+						}
+					}
+				}
+			}
+			return true
+		})
+	}
+	if len(out) == 0 {
+		return nil, shape("shovel/task.go: no constant statement on shovel.task_updates found")
+	}
+	sort.Strings(out)
+	return out, nil
+}
+
 func reservedWords(repo string) ([]string, error) {
 	f, err := parse(repo, "wpg/reserved_words.go")
 	if err != nil {
@@ -804,6 +843,10 @@ func UserInputChecks(repo string) (string, error) {
 	if err != nil {
 		return "", err
 	}
+	tcs, err := taskConsts(repo)
+	if err != nil {
+		return "", err
+	}
 	var b strings.Builder
 	b.WriteString("(* GENERATED by harness/config/translate from shovel/config/config.go, wpg/pg.go,\n   wpg/reserved_words.go, dig/dig.go, shovel/task.go, shovel/web/web.go.  Do not edit. *)\n")
 	b.WriteString("From Coq Require Import List String.\nImport ListNotations.\nOpen Scope string_scope.\n\n")
@@ -836,6 +879,7 @@ func UserInputChecks(repo string) (string, error) {
 		b.WriteString(cstr(d))
 	}
 	b.WriteString("].\n\nDefinition reserved : list string :=\n  " + clist(res) + ".\n")
+	b.WriteString("\n(* constant statements of shovel/task.go on shovel.task_updates (white space squashed) *)\nDefinition task_consts : list string :=\n  " + clist(tcs) + ".\n")
 	return b.String(), nil
 }
 
